@@ -195,17 +195,21 @@ def linuxGetRoutes : Prog :=
   .send "GetCmdOutput" "\"ip route show\"" (.lit "ip route show") .abort ;;
   .note "call" "parseRoutes" ;; .note "ret" "parseRoutes(…)"
 
-def linuxLoadDeviceWith (checkBanner : Prog) : Prog :=
+def linuxPreBanner : Prog :=
   .note "call" "GetUserPass" ;; errRet "nil, err" ;;
   .call "console.GetSSHConn" sshConn ;; errRet "nil, err" ;;
   .call "loginEnable" linuxLoginEnable ;;
   .call "logVersion" linuxLogVersion ;;
-  .call "checkDeviceName" linuxCheckDeviceName ;;
-  .call "checkBanner" checkBanner ;;
+  .call "checkDeviceName" linuxCheckDeviceName
+
+def linuxPostBanner : Prog :=
   .note "call" "SetLogFH" ;;
   .call "getDeviceIPTables" linuxGetIPTables ;;
   .call "getDeviceRoutes" linuxGetRoutes ;;
   .note "ret" "&config{ iptables: s.getDeviceIPTables(), routes: s.getDeviceRoutes() }, err"
+
+def linuxLoadDeviceWith (checkBanner : Prog) : Prog :=
+  linuxPreBanner ;; .call "checkBanner" checkBanner ;; linuxPostBanner
 
 def linuxLoadDevice (cfg : Cfg) : Prog := linuxLoadDeviceWith (linuxCheckBanner cfg)
 
